@@ -116,6 +116,19 @@ def unsafe(f: F) -> F:
     return f
 
 
+def _alias_origin(obj: t.Any) -> type | None:
+    """The class behind ``list[int]``, ``typing.List[int]`` or
+    ``typing.List``.  These aliases forward attribute lookups to that class.
+    """
+    if isinstance(obj, types.GenericAlias) or type(obj).__module__ == "typing":
+        origin = getattr(obj, "__origin__", None)
+
+        if isinstance(origin, type):
+            return origin
+
+    return None
+
+
 def is_internal_attribute(obj: t.Any, attr: str) -> bool:
     """Test if the attribute given is an internal python attribute.  For
     example this function returns `True` for the `func_code` attribute of
@@ -134,7 +147,7 @@ def is_internal_attribute(obj: t.Any, attr: str) -> bool:
     elif isinstance(obj, types.MethodType):
         if attr in UNSAFE_FUNCTION_ATTRIBUTES or attr in UNSAFE_METHOD_ATTRIBUTES:
             return True
-    elif isinstance(obj, (type, types.GenericAlias)):
+    elif isinstance(obj, type) or _alias_origin(obj) is not None:
         # a parameterized alias such as ``dict[str, int]`` forwards attribute
         # lookups to the class it was made from
         if attr == "mro":
@@ -181,8 +194,10 @@ def modifies_known_mutable(obj: t.Any, attr: str) -> bool:
     >>> modifies_known_mutable("foo", "upper")
     False
     """
-    if isinstance(obj, types.GenericAlias):
-        obj = obj.__origin__
+    origin = _alias_origin(obj)
+
+    if origin is not None:
+        obj = origin
 
     for typespec, unsafe in _mutable_spec:
         if isinstance(obj, typespec) or (
